@@ -108,7 +108,8 @@ class Lstm:
             # The cloned state tensor will share equivalence id and buffer
             # with the variable state tensor
             n_state = state.shape[-1]
-            state_ofm = state.clone(f"_state#{batch}")
+            state_ofm = state.clone(f"_state#{batch}", set_unique=True)
+            state_ofm.is_variable = False
             # Set shape to be one batch
             state_ofm.set_all_shapes([1, n_state])
             # Create the op for reading one batch of the state
@@ -127,7 +128,10 @@ class Lstm:
     def get_state(self, op: Operation, batch: int = 0) -> Operation:
         """Setup the correct read offset for reading the state from
         a variable tensor state"""
-        if not self.time_major and self.n_batch > 1:
+        from_slice_read = len(op.ifm.ops) == 1 and op.ifm.ops[0].type == Op.SplitSliceRead
+        # (the read of an initial state is a SplitSliceRead of its own: the graph optimiser moves that read to this operation
+        # or replaces it by a copy of the batch, which must then not be offset a second time)
+        if not self.time_major and self.n_batch > 1 and not from_slice_read:
             op.read_offsets[0] = Shape4D.from_list([batch, 0], 0)
             op.read_shapes[0] = Shape4D(op.ifm.shape)
             op.ifm_shapes[0] = Shape4D([self.n_batch, op.ifm.shape[-1]])
